@@ -76,6 +76,9 @@ func PkgPath(mod string, id int, pkg string) string {
 	if pkg == "sub" {
 		p += "/sub"
 	}
+	if pkg == "twin" { // a second package that is also called `sub`
+		p += "/twin/sub"
+	}
 	return p
 }
 
@@ -99,6 +102,9 @@ func (r *renderer) te(t TE) string {
 		case t.Pkg == "sub":
 			r.imports[PkgPath(r.mod, r.prog.ID, "sub")] = true
 			name = "sub." + name
+		case t.Pkg == "twin":
+			r.imports["twinsub "+PkgPath(r.mod, r.prog.ID, "twin")] = true
+			name = "twinsub." + name
 		case t.Pkg == "":
 			// root type seen from sub: not renderable (import cycle); generator never does this
 			name = "INVALID_ROOT_REF_" + name
@@ -219,13 +225,14 @@ func Render(p *Prog, mod string) map[string]string {
 		{"", "", fmt.Sprintf("p%d/defs.go", p.ID), PkgName(p.ID)},
 		{"", "other", fmt.Sprintf("p%d/other.go", p.ID), PkgName(p.ID)},
 		{"sub", "", fmt.Sprintf("p%d/sub/sub.go", p.ID), "sub"},
+		{"twin", "", fmt.Sprintf("p%d/twin/sub/sub.go", p.ID), "sub"},
 	}
 	for _, u := range units {
 		r := &renderer{prog: p, mod: mod, pkg: u.pkg, imports: map[string]bool{}}
 		var body strings.Builder
 		n := 0
 		for _, d := range p.Decls {
-			if d.Pkg == u.pkg && (d.File == u.file || (u.pkg == "sub")) {
+			if d.Pkg == u.pkg && (d.File == u.file || (u.pkg != "")) {
 				body.WriteString(r.decl(d))
 				if strings.Contains(d.Extra, "time.") {
 					r.imports["time"] = true
@@ -249,7 +256,11 @@ func Render(p *Prog, mod string) map[string]string {
 		if len(imps) > 0 {
 			head.WriteString("import (\n")
 			for _, i := range imps {
-				fmt.Fprintf(&head, "\t%q\n", i)
+				if alias, path, ok := strings.Cut(i, " "); ok {
+					fmt.Fprintf(&head, "\t%s %q\n", alias, path)
+				} else {
+					fmt.Fprintf(&head, "\t%q\n", i)
+				}
 			}
 			head.WriteString(")\n\n")
 		}
@@ -279,6 +290,7 @@ type Opts struct {
 	AnonUnionContainers bool // []Union / map[string]Union fields (gounions refuses them)
 	EnumUnexported bool // enums with unexported members
 	DashTags bool // some fields tagged json:"-"
+	NoTwinPkg bool // no second imported package named like the first
 	TagOptions bool // json tag options omitempty / string (C02 only: the generated types cannot express them)
 	NoNamedRec bool // no `type Tree []Tree` (the SQL JSON validators refuse recursive named containers)
 	DataIgnore bool // some fields tagged gomacro-data:"ignore"
@@ -317,6 +329,12 @@ func Random(id int, rng *rand.Rand, o Opts) *Prog {
 		sl := Slice(Basic("string"))
 		add(Decl{K: "named", Name: "Names", Pkg: "sub", Under: &sl})
 		g.leafs = append(g.leafs, Ref("sub", "Level"), Ref("sub", "Code"), Ref("sub", "Point"), Ref("sub", "Names"))
+	}
+	if o.SubPkg && !o.NoTwinPkg {
+		// a second imported package with the same package *name* (enums must be collected from both)
+		tm := Basic("int")
+		add(Decl{K: "named", Name: "Mode", Pkg: "twin", Under: &tm, Iota: true, Consts: []Const{{Name: "Off"}, {Name: "On", Comment: "enabled"}, {Name: "Auto"}}})
+		g.leafs = append(g.leafs, Ref("twin", "Mode"))
 	}
 	if o.StdLib {
 		g.leafs = append(g.leafs, Ref("time", "Duration"), Ref("database/sql", "NullInt64"), Ref("database/sql", "NullString"))
@@ -386,8 +404,11 @@ func Random(id int, rng *rand.Rand, o Opts) *Prog {
 	// structs
 	names := []string{"Alpha", "Beta", "Gamma", "Delta", "Eps", "Zeta", "Eta", "Theta"}
 	nS := o.NStructs
-	if nS <= 0 {
+	if nS == 0 {
 		nS = 3
+	}
+	if nS < 0 {
+		nS = 0
 	}
 	if nS > len(names) {
 		nS = len(names)
@@ -508,4 +529,46 @@ func max(a, b int) int {
 		return a
 	}
 	return b
+}
+
+// MinimalKinds lists field types for single-field programs: each kind alone in the analysed file, so
+// that a declaration the output depends on cannot come from a neighbour by accident.
+func MinimalKinds() []TE {
+	ks := []TE{
+		Basic("int"), Basic("string"), Basic("bool"), Basic("float64"), Basic("uint8"), Basic("int64"),
+		Slice(Basic("int")), Slice(Basic("string")), Slice(Slice(Basic("bool"))), Array(2, Basic("int")), Array(3, Ref("", "Kind")),
+		Map(Basic("int"), Basic("string")), Map(Basic("int64"), Basic("bool")), Map(Basic("string"), Basic("int")), Map(Basic("string"), Basic("string")),
+		Map(Ref("", "Kind"), Basic("bool")), Map(Ref("", "Color"), Basic("string")), Map(Ref("", "IdItem"), Basic("string")), Map(Ref("", "Label"), Basic("float64")),
+		Map(Basic("int"), Ref("", "Circle")), Map(Basic("string"), Slice(Basic("int64"))),
+		Ref("", "Kind"), Ref("", "Color"), Ref("", "Score"), Ref("", "MyDate"), Ref("", "Stamp"), Time(), Ref("", "Label"), Ref("", "IdItem"),
+		Ref("", "IntList"), Ref("", "Triple"), Ref("", "Flags"), Ref("", "Shape"), Ref("", "Thing"), Ref("", "Shapes"), Ref("", "Things"), Ref("", "Circle"), Ref("", "Rect"), Ref("", "Base"),
+		Ref("sub", "Level"), Ref("sub", "Point"), Ref("sub", "Names"), Ref("sub", "Code"), Ref("twin", "Mode"),
+		Ref("time", "Duration"), Ref("database/sql", "NullInt64"), Ref("database/sql", "NullString"), Inst("Opt", Ref("", "IdItem")),
+		Slice(Ref("", "Circle")), Slice(Ref("", "Kind")), Map(Basic("string"), Ref("sub", "Point")), Slice(Time()), Map(Basic("int"), Time()),
+	}
+	return ks
+}
+
+// Minimal builds the program `type Only struct { F <te> }` with every other declaration of the
+// standard prelude moved out of the analysed file.
+func Minimal(id int, te TE) *Prog {
+	rng := rand.New(rand.NewSource(1))
+	o := Full()
+	o.NStructs = -1
+	o.Aliases = false
+	o.Recursive = false
+	p := Random(id, rng, o)
+	for i := range p.Decls {
+		if p.Decls[i].Pkg == "" {
+			p.Decls[i].File = "other"
+		}
+	}
+	kept := p.Decls[:0]
+	for _, d := range p.Decls {
+		if !(d.K == "struct" && (d.Name == "Alpha")) {
+			kept = append(kept, d)
+		}
+	}
+	p.Decls = append(kept, Decl{K: "struct", Name: "Only", Fields: []Field{{Name: "F", Type: te}, {Name: "Note", Type: Basic("string"), Tag: `json:"note"`}}})
+	return p
 }
